@@ -113,6 +113,11 @@ HOSTILE += [  # separator-first layouts: the comma / operator opens the line, th
     "x = [a  # c0\n    , b  # c1\n    , c  # c2\n]  # c3\nf(p  # c4\n  , q  # c5\n  , k=r  # c6\n  )  # c7",
     "d = {a: 1  # c0\n   , b: 2  # c1\n   , **c  # c2\n   }  # c3\ny = (p  # c4\n     + q  # c5\n     + r)  # c6",
 ]
+HOSTILE += [  # lines that look like a comment / a blank line from column 0 but belong to the element before: the closing line of a
+    # multi-line string, the comment block above the first decorator (it belongs to the statement, the decorator list starts below it)
+    'x = [\n    """a\n# not a comment""",\n    b,  # c0\n    c,\n]  # c1\nf(\'\'\'m\n\n\'\'\',\n  p,  # c2\n  k=q)',
+    "# c0\n# c1\n@d1  # c2\n@d2\ndef f():  # c3\n    pass\n# c4\n@e1\n# c5\n@e2\nclass K:\n    pass",
+]
 for _p in HOSTILE:
     ast.parse(_p)
 PROGS = COMMENTED + [PROGRAMS[i] for i in (11, 20, 21, 22, 23, 24, 25, 26, 27, 28, 37, 38)] + HOSTILE
